@@ -1418,8 +1418,6 @@ theorem prim_cfg (s : MState) (pr : Prim) : SameCfg s (prim s pr).1 := by
   case listdir p => exact checked_cfg s _ (listing_cfg s _ _)
   case scandir p => exact checked_cfg s _ (listing_cfg s _ _)
   case scanFirst p => exact checked_cfg s _ (sameCfg_fs s _)
-  case upload p d => exact viaWrite_cfg s _ _
-  case writebytes p d => exact viaWrite_cfg s _ _
   case openbin p m =>
     apply checked_cfg
     split
@@ -1528,8 +1526,6 @@ theorem prim_frame (s : MState) (pr : Prim) (j : Nat)
     apply checked_fs; intro _
     simp only
     rw [scanFirstLoop_fs]
-  case upload p d => exact viaWrite_frame s _ _ j h
-  case writebytes p d => exact viaWrite_frame s _ _ j h
   case openbin p m =>
     apply checked_fs; intro hc
     rw [checked_open s _ hc] at h
@@ -1589,8 +1585,6 @@ theorem prim_calls (s : MState) (pr : Prim) : ∀ c ∈ (prim s pr).2.2, CallCla
   case scandir p => exact checked_trace' s _ _ (fun c hc => Or.inl (listing_calls s _ _ c hc))
   case scanFirst p =>
     exact checked_trace' s _ _ (fun c hc => Or.inl (scanFirstLoop_calls _ _ _ _ c hc))
-  case upload p d => exact viaWrite_calls s _ _ rfl
-  case writebytes p d => exact viaWrite_calls s _ _ rfl
   case openbin p m =>
     apply checked_trace'
     split
@@ -1642,8 +1636,6 @@ theorem prim_calls_op (s : MState) (pr : Prim) :
   case scandir p => exact checked_trace' s _ _ (fun c hc => Or.inl (listing_calls s _ _ c hc))
   case scanFirst p =>
     exact checked_trace' s _ _ (fun c hc => Or.inl (scanFirstLoop_calls _ _ _ _ c hc))
-  case upload p d => exact viaWrite_calls_op s _ _
-  case writebytes p d => exact viaWrite_calls_op s _ _
   case openbin p m =>
     apply checked_trace'
     split
